@@ -106,8 +106,10 @@ ColTrees == {L(<<FrOn(1, {1, 2}, ABC, {}), FrOn(2, {2}, BC, {2})>>),
 RecolNames == {<<"c", "r", "a">>, <<"b">>, <<>>, <<"a", "b", "c">>}
 InitColumns == \E tree \in ColTrees, pol \in ColPolicies : cs = [op |-> "columns", tree |-> tree, pol |-> pol]
 InitRecolumn == \E tree \in ColTrees :
-    \/ \E names \in RecolNames : cs = [op |-> "recolumn", tree |-> tree, names |-> names, pol |-> "given"]
-    \/ \E pol \in ColPolicies : ProperLeaves(tree) # <<>> /\ cs = [op |-> "recolumn", tree |-> tree, names |-> ColumnsLaw(tree, pol).c, pol |-> pol]
+    \* (as: the names are handed over as a list or as a pd.Index - the same names either way)
+    \/ \E names \in RecolNames, as \in {"list", "index"} : cs = [op |-> "recolumn", tree |-> tree, names |-> names, pol |-> "given", as |-> as]
+    \/ \E pol \in ColPolicies, as \in {"list", "index"} :
+          ProperLeaves(tree) # <<>> /\ cs = [op |-> "recolumn", tree |-> tree, names |-> ColumnsLaw(tree, pol).c, pol |-> pol, as |-> as]
 
 \* ---- np_reindex ----------------------------------------------------------------------------------
 Arr(i, n) == Arr1([p \in 1..n |-> IF p = 2 THEN NaNC ELSE V(i, p)])
